@@ -34,7 +34,6 @@ template <typename ExcT>
 void expect_raises_fn(const char* file, uint64_t line, std::function<void()> fn) {
   try {
     fn();
-    expect_generic(false, "expected exception, but none raised", file, line);
   } catch (const ExcT&) {
     return;
   } catch (const std::exception& e) {
@@ -46,6 +45,10 @@ void expect_raises_fn(const char* file, uint64_t line, std::function<void()> fn)
     // std::exception anyway.
     expect_generic(false, "incorrect exception type raised", file, line);
   }
+  // fn returned normally. This check must not be inside the try block above:
+  // expectation_failed is a std::logic_error, so the handlers would catch it
+  // (and take it for the expected exception if ExcT is one of its bases).
+  expect_generic(false, "expected exception, but none raised", file, line);
 }
 
 template <>
